@@ -258,13 +258,18 @@ func c04(r *gen.Rng, tier string, shard, nshard int) {
 		// filter below one, something unrelated; removed again, emptied, or emptied without ever having been stored)
 		for j, c := 0, r.Intn(3); j < c; j++ {
 			f := stored[r.Intn(len(stored))]
-			switch r.Intn(3) {
+			switch r.Intn(4) {
 			case 0:
 				if ls := strings.Split(f, "/"); len(ls) > 1 {
 					f = strings.Join(ls[:1+r.Intn(len(ls)-1)], "/")
 				}
 			case 1:
 				f = filters[r.Intn(len(filters))]
+			case 2:
+				// a filter below a stored one (the stored one becomes an inner node with a single child for a while)
+				if !strings.HasSuffix(f, "#") {
+					f = f + "/" + []string{"a", "b", "+", "#", ""}[r.Intn(5)]
+				}
 			}
 			switch r.Intn(3) {
 			case 0:
